@@ -293,7 +293,11 @@ namespace options
             }
         }
 
-        s << "usage: " << app_name_;
+        // The line breaks depend on the write position of the stream. Hence, use our own stream,
+        // so the result doesn't depend on what is in the stream of the caller.
+        std::stringstream line;
+
+        line << "usage: " << app_name_;
 
         std::stringstream usage;
 
@@ -333,10 +337,10 @@ namespace options
         {
             out = out.substr(1);
 
-            nitro::io::terminal::format_padded(s, out, 8 + app_name_.size(), 80);
+            nitro::io::terminal::format_padded(line, out, 8 + app_name_.size(), 80);
         }
 
-        s << std::endl << std::endl;
+        s << line.str() << std::endl << std::endl;
 
         if (!about_.empty())
         {
